@@ -36,7 +36,7 @@ Lemma write_stmt_shape dbg st f l c a data ko kp pa r st' : Inv st -> allocated 
 Proof.
   intros HI Ha Hl E.
   destruct (write_alloc dbg st f l c a data ko kp pa HI Ha Hl)
-    as [(s & EA & Hin & [W|(W & _)])|(Hin & m' & W & HR' & Ho & Eabs)]; rewrite W in E; inversion E; subst.
+    as [(s & EA & Hin & W)|(Hin & m' & W & HR' & Ho & Eabs)]; rewrite W in E; inversion E; subst.
   - right; left. exists s, data. repeat split; auto; apply Hin.
   - right; right. exists data. repeat split; auto; apply Ho.
 Qed.
